@@ -40,12 +40,21 @@ type chunkReader struct {
 	chunks [][]byte
 	zero   bool
 	gap    bool
+	idle   int // empty reads per boundary (0 or 1 = one)
+	polls  int // empty reads still owed at the current boundary
 }
 
 func (c *chunkReader) Read(p []byte) (int, error) {
+	if c.polls > 0 {
+		c.polls--
+		return 0, nil
+	}
 	for len(c.chunks) > 0 && len(c.chunks[0]) == 0 {
 		c.chunks = c.chunks[1:]
 		if c.zero && len(c.chunks) > 0 {
+			if c.idle > 1 {
+				c.polls = c.idle - 1
+			}
 			return 0, nil
 		}
 	}
@@ -79,6 +88,7 @@ type SlipCase struct {
 	Cuts      []int `json:"cuts"`
 	Wire      []int `json:"wire"`
 	Zero      bool  `json:"zero"`
+	Idle      int   `json:"idle"`
 	Mux       bool  `json:"mux"`
 	Predicted []Pkt `json:"predicted"`
 }
@@ -140,7 +150,7 @@ func runSlip(c *SlipCase) (wire []byte, got []Pkt, fail string) {
 		}
 	}
 	wire = append([]byte{}, buf.Bytes()...)
-	tr := &chunkReader{chunks: split(wire, c.Cuts), zero: c.Zero}
+	tr := &chunkReader{chunks: split(wire, c.Cuts), zero: c.Zero, idle: c.Idle}
 	got = []Pkt{}
 	if c.Mux {
 		r := slip.NewSlipMuxReader(tr)
@@ -347,6 +357,13 @@ func dapMain(path string) {
 		var buf bytes.Buffer
 		for _, ct := range ctors {
 			m := ct.New()
+			// the message a client writes is the schema's type for this name (dap_schema_table.go), not whatever the
+			// codec's own constructor map holds: a registry entry pointing at a sibling type must show as a difference
+			// (the codec's constructor is kept when it builds the schema's type: it pre-fills protocol defaults such as
+			// pathFormat="path" that an absent optional field decodes to)
+			if sc, ok := schemaCtor[ct.Kind+":"+ct.Name]; ok && reflect.TypeOf(sc()) != reflect.TypeOf(m) {
+				m = sc()
+			}
 			mv := reflect.ValueOf(m).Elem()
 			if p > 0 {
 				fill(mv, p, 0, ct.Name)
@@ -404,7 +421,7 @@ func dapMain(path string) {
 					tbad++
 					if tbad <= 20 {
 						enc.Encode(map[string]interface{}{"fail": "typed message read back differently", "layer": "codec", "kind": ctors[i].Kind + ":" + ctors[i].Name,
-							"pattern": p, "error": fmt.Sprint(err), "want": string(wj), "got": string(gj)})
+							"pattern": p, "error": fmt.Sprint(err), "want": fmt.Sprintf("%T ", want) + string(wj), "got": fmt.Sprintf("%T ", got) + string(gj)})
 					}
 					if err != nil {
 						break
